@@ -17,6 +17,7 @@ def run_c09(pid, tier):
     tin = os.path.join(scratch(), 'repcode_in.json')
     dmax, cmax, nlay = (3, 4, 10) if quick else (5, 8, 200)
     run_impl('drv_repcode.py', [tin, dmax, cmax, nlay, common.seed(), 1], timeout=10000)
+    common.split_error_rows(v, 'C09', tin)
     rows = [r for r in json.load(open(tin)) if r['ctor'] == 'main']
     json.dump(rows, open(tin, 'w'))
     tr, res = table_check(v, 'RepCodeTrace', '', tin, rows, pid)
